@@ -47,6 +47,36 @@ func c05Oracle(v string) string {
 	return strings.Join(parts, ",")
 }
 
+type c05NamedMap map[string]string
+type c05Str string
+type c05Form struct {
+	name string
+	val  any
+}
+
+func c05Forms(p, v string) []c05Form {
+	return []c05Form{
+		{"named-map", c05NamedMap{p: v}},
+		{"map-named-value", map[string]c05Str{p: c05Str(v)}},
+		{"map-named-key", map[c05Str]string{c05Str(p): v}},
+		{"slice-of-map", []any{map[string]string{p: v}}},
+		{"slice-of-named-map", []c05NamedMap{{p: v}}},
+		{"func-map", func() any { return map[string]string{p: v} }},
+		{"func-named-map", func() c05NamedMap { return c05NamedMap{p: v} }},
+		{"slice-of-kv", []templ.KeyValue[string, string]{templ.KV(p, v)}},
+		{"pointer-to-map", &map[string]string{p: v}},
+		{"kv-named", templ.KV(c05Str(p), c05Str(v))},
+	}
+}
+
+func fnv32(s string) uint32 {
+	h := uint32(2166136261)
+	for i := 0; i < len(s); i++ {
+		h = (h ^ uint32(s[i])) * 16777619
+	}
+	return h
+}
+
 func runC05(e *emitter, tier string, seed uint64) {
 	bg := context.Background()
 	doCSS := func(p, v string) {
@@ -65,6 +95,23 @@ func runC05(e *emitter, tier string, seed uint64) {
 			m, kv = "ERR", "ERR"
 		}
 		e.emit(k, "css", hx(p), hx(v), hx(ip), hx(iv), hx(tc), hx(m), hx(kv), c05Oracle(v))
+		// the same pair in every other container form SanitizeStyleAttributeValues may come to accept: sanitised like the
+		// plain map, or refused as unsupported - never passed through
+		if fnv32(k)%4 == 0 {
+			for _, f := range c05Forms(p, v) {
+				out, ferr := templruntime.SanitizeStyleAttributeValues(f.val)
+				o := hx(out)
+				if ferr != nil {
+					o = "ERR"
+				}
+				e.emit("cssform "+f.name+" "+p+"\x00"+v, "cssform", f.name, hx(p), hx(v), hx(ip), hx(iv), o)
+			}
+		}
+		// end to end: the same pair in a style attribute of a generated template, as the browser gets it
+		if err1 == nil {
+			doc := render(tmpl.StyleSink(map[string]string{p: v}), bg)
+			e.emit("cssattr "+p+"\x00"+v, "cssattr", hx(p), hx(v), hx(ip), hx(iv), hx(doc))
+		}
 	}
 	doComp := func(p, v string) {
 		k := "cssc " + p + "\x00" + v
@@ -99,6 +146,8 @@ func runC05(e *emitter, tier string, seed uint64) {
 		}
 	})
 	shapes := []string{
+		"var(--x)", "var(--x,red)", "var(--x, red)", "var(--x,</style><script src=//evil.example/x.js></script>)", "var(--x,red;}body{display:none;}a{color:blue)",
+		"var(--x,@import 'x';)", "var(--x,/*)", "1px var(--gap,2px)", "calc(var(--a,1px) + 2px)", "env(safe-area-inset-top)", "attr(data-x)", "min(1px,2px)",
 		"red", "#fff", "10px", "1px solid red", "rgb(1,2,3)", "calc(1px + 2px)", "expression(alert(1))", "red;color:blue", "red}body{color:blue",
 		"red/*x*/", "red//x", "a/b", "a*b", "*", "/", "url(/a.png)", "url(\"/a.png\")", "url('/a.png')", "url( /a.png )", "url(javascript:alert(1))",
 		"url(JaVaScRiPt:alert(1))", "url(\"javascript:alert(1)\")", "url(data:text/html,x)", "url(http://h/p)", "url(HTTPS://h/p)", "url(mailto:a@b)",
